@@ -131,6 +131,12 @@ class LockStep(Model):
                 ev.append(('upd', i, 'NodeID', j))
                 ev.append(('upds', i, 'PNodeID-' + j))
         ev += [('upd_all', 'Q', '1'), ('upd_all', 'Class', 'Link')]
+        if sum(1 for i in IDS if self.ref.has(G, i)) >= 2:
+            ev.append(('upd_all', 'NodeID', 'same'))      # one id for every node of the graph
+        for i in ('a', 'b'):
+            ev.append(('upd', i, 'GraphID', H))           # re-homing a single node by rewriting its graph id
+            ev.append(('upds', i, 'NoneNodeID'))          # blanking an identity property through the bulk setter
+            ev.append(('upds', i, 'PNoneName'))
         for kind in ('has', 'connects'):
             ev.append(('upd_link', 'a', 'b', kind, 'LP', '1'))
             ev.append(('unset_link', 'a', 'b', kind, 'LP'))
@@ -158,6 +164,10 @@ class LockStep(Model):
     def _multi(tag):
         if tag.startswith('PNodeID-'):
             return {'P': '9', 'NodeID': tag[-1]}
+        if tag == 'NoneNodeID':
+            return {'NodeID': None}
+        if tag == 'PNoneName':
+            return {'P': '9', 'Name': None}
         return {'PQ': {'P': '2', 'Q': '1'}, 'ClassP': {'Class': 'Link', 'P': '9'}, 'PClass': {'P': '9', 'Class': 'Link'},
                 'LPLQ': {'LP': '2', 'LQ': '1'}, 'ClassLP': {'Class': 'connects', 'LP': '9'},
                 'LPClass': {'LP': '9', 'Class': 'connects'}}[tag]
@@ -236,7 +246,10 @@ class LockStep(Model):
         if first == 'raise' and ((ev[0] == 'merge' and ev[2] in EITHER_POLICIES) or (ev[0] == 'add_node' and ev[3] in CONTRARY)):
             out['model'] = ('raise',)        # refusing is allowed; the state oracle then demands that nothing changed
         elif ev[0] in ('upd', 'upds') and 'NodeID' in str(ev[2]):
-            out['model'] = ('raise',)        # only offered when the id is taken
+            out['model'] = ('raise',)        # only offered when the id is taken (or the value is None)
+        elif (ev[0] == 'upd' and ev[2] == 'GraphID') or (ev[0] == 'upds' and 'None' in str(ev[2])) or \
+                (ev[0] == 'upd_all' and ev[1] == 'NodeID'):
+            out['model'] = ('raise',)        # refused, or - for a node that does not exist - failing anyway
         else:
             out['model'] = self._model(ev)
         if ev[0] == 'merge':
